@@ -46,7 +46,8 @@ QUICK = ["null", "int0", "intneg", "int2", "i64max", "rational", "nan", "str", "
          "stream", "infstream", "closure"]
 SUB3 = ["null", "int0", "intneg", "int2", "float", "str", "emptylist", "list", "dict", "stream", "closure", "i64min"]
 SUB3_QUICK = ["int0", "intneg", "str", "list", "closure", "null"]
-PRE = ["struct Foo (a, b)"] + ["p_%s := %s" % (n, s) for n, s in POOL]
+# a lazily built result is advanced (up to 40 elements) inside the try: a stream that can only fail when consumed has not "ended with a value"
+PRE = ["struct Foo (a, b)", "force_ := \\v -> (if (v is stream) list(v take 40) else v)"] + ["p_%s := %s" % (n, s) for n, s in POOL]
 
 TEMPLATES = [
     ("index", "{A}[{B}]", 2), ("slice", "{A}[{B}:{C}]", 3), ("slice_open", "{A}[{B}:]", 2),
@@ -122,7 +123,7 @@ def cases(tier, shard, nshards):
             if cnt % nshards != shard:
                 continue
             risky = any(a in RISKY for a in t)
-            body = "%s(%s)" % (f, ", ".join("p_" + a for a in t))
+            body = "force_(%s(%s))" % (f, ", ".join("p_" + a for a in t))
             opts = {"step_ms": 400 if risky else 3000, "fuel": 20000, "compact": True}
             yield Case(wrap(body), {"k": "call", "fn": f, "args": list(t), "risky": risky}, pre=PRE, opts=opts)
     tpool = QUICK if tier == "quick" else [n for n in names if n not in ("negzero", "emptybytes", "defdict", "emptystream", "builtin")]
